@@ -873,3 +873,514 @@ Proof.
   destruct (C09_s2_all bufsz m P rho WP W k th Hth Hj) as [H1 H2].
   unfold content. rewrite H1, H2. apply is_prefix_refl.
 Qed.
+
+(* ------------------------------------------------------------------ witnesses (used by the refutations and the non-vacuity examples) *)
+
+Definition ev12 : list Z := [0; 79; 72; 112; 0; 0; 0; 0; 0; 0; 0; 0].        (* a 12-byte event *)
+Definition th_w : thread := mkth 5 [ev12; ev12] 2 2.
+Definition P_w : program := [th_w].
+Definition rho_json_first : order := fun _ _ => [EDot; EDotDot; EFile Json; EFile Obs].
+Definition rho_obs_first : order := fun _ _ => [EFile Obs; EFile Json; EDotDot; EDot].
+
+Lemma wf_P_w : wf_program P_w.
+Proof. split; [repeat constructor; simpl; tauto | intros th [<-|[]]; discriminate]. Qed.
+Lemma wf_rho_json_first : wf_order rho_json_first.
+Proof. intros t p; unfold rho_json_first, all_entries. do 2 apply perm_skip. apply perm_swap. Qed.
+Lemma wf_rho_obs_first : wf_order rho_obs_first.
+Proof.
+  intros t p; unfold rho_obs_first, all_entries.
+  apply Permutation_sym. apply (Permutation_rev [EFile Obs; EFile Json; EDotDot; EDot]) || idtac.
+  change [EDot; EDotDot; EFile Obs; EFile Json] with (rev [EFile Json; EFile Obs; EDotDot; EDot]).
+  eapply perm_trans; [apply Permutation_sym, Permutation_rev|]. apply perm_swap.
+Qed.
+
+(* ================================================================== section "old": the relocation as found *)
+Section old.
+
+(* C09 sentence 2 fails: with readdir returning stream.json first, a kill right after the
+   fclose of its copy (35 calls) leaves finished = 1 in the final directory and no stream.obs *)
+Theorem C09_tmpdir_s2_refuted_old :
+  exists bufsz P rho k th, wf_program P /\ wf_order rho /\ In th P /\
+    let s := apply_prefix bufsz k (trace_of_program_v Old TmpMode P rho) in
+    json_finished (content s (PFile Fin (th_tid th) Json)) = true /\
+    files s (PFile Fin (th_tid th) Obs) <> Some (all_bytes th).
+Proof.
+  exists 4096%nat, P_w, rho_json_first, 35%nat, th_w.
+  split; [apply wf_P_w|]. split; [apply wf_rho_json_first|]. split; [left; reflexivity|].
+  cbv zeta. split; [vm_compute; reflexivity | vm_compute; discriminate].
+Qed.
+
+(* C09 sentence 1 fails for the necessary acceptance condition emu_ok: killed while the copy of
+   stream.obs is partly in the file (stdio wrote a prefix that ends on an event boundary) the
+   final directory is accepted although a flushed event is missing *)
+Theorem C09_tmpdir_s1_refuted_old :
+  exists bufsz P rho k t, wf_program P /\ wf_order rho /\ In t (tids P) /\
+    let s := apply_prefix bufsz k (trace_of_program_v Old TmpMode P rho) in
+    emu_ok s Fin (tids P) = true /\ visible s Fin t = true /\
+    is_prefix (flushed_of (firstn k (trace_of_program_v Old TmpMode P rho)) t) (content s (PFile Fin t Obs)) = false.
+Proof.
+  exists 20%nat, P_w, rho_json_first, 42%nat, 5.
+  split; [apply wf_P_w|]. split; [apply wf_rho_json_first|]. split; [left; reflexivity|].
+  cbv zeta. repeat split; vm_compute; reflexivity.
+Qed.
+
+(* C10 fails: fwrite failing (e.g. ENOSPC) while stream.obs is copied: the result is ignored,
+   the source is removed, the program returns normally with an incomplete stream *)
+Theorem C10_single_fault_refuted_old :
+  exists bufsz m P rho i fk, wf_program P /\ wf_order rho /\
+    let s := apply_with_fault bufsz i fk (itrace Old m P rho) in
+    outcome_of P s = ReturnedIncomplete /\ m_diag s = false /\ orphan_delete s P = true.
+Proof.
+  exists 4096%nat, TmpMode, P_w, rho_json_first, 41%nat, FErr.
+  split; [apply wf_P_w|]. split; [apply wf_rho_json_first|].
+  cbv zeta. repeat split; vm_compute; reflexivity.
+Qed.
+
+(* ... and in the other enumeration order as well *)
+Theorem C10_single_fault_refuted_old_obs_first :
+  exists i fk, let s := apply_with_fault 4096 i fk (itrace Old TmpMode P_w rho_obs_first) in
+    outcome_of P_w s = ReturnedIncomplete /\ orphan_delete s P_w = true.
+Proof. exists 29%nat, FErr. cbv zeta. split; vm_compute; reflexivity. Qed.
+
+End old.
+
+(* ================================================================== C10: machine with one fault *)
+
+(* runs of an instruction list in which at most one executed call fails (budget = a fault is still available) *)
+Inductive R (bufsz : nat) : bool -> list instr -> mstate -> bool -> mstate -> Prop :=
+| R_nil b s : R bufsz b [] s b s
+| R_dead b i l s : m_dead s = true -> R bufsz b (i :: l) s b s
+| R_skip b i l s b' s' : m_dead s = false -> guard_ok (m_fl s (i_tid i)) (i_guard i) = false ->
+    R bufsz b l s b' s' -> R bufsz b (i :: l) s b' s'
+| R_ok b i l s b' s' : m_dead s = false -> guard_ok (m_fl s (i_tid i)) (i_guard i) = true ->
+    R bufsz b l (step bufsz None i s) b' s' -> R bufsz b (i :: l) s b' s'
+| R_fault i l s fk b' s' : m_dead s = false -> guard_ok (m_fl s (i_tid i)) (i_guard i) = true ->
+    R bufsz false l (step bufsz (Some fk) i s) b' s' -> R bufsz true (i :: l) s b' s'.
+
+Lemma run_R bufsz l : forall fi s,
+  exists b', R bufsz (match fi with Some _ => true | None => false end) l s b' (run bufsz fi l s).
+Proof.
+  induction l as [|i l IH]; intros fi s; cbn [run].
+  - eexists; constructor.
+  - destruct (m_dead s) eqn:D; [eexists; apply R_dead; auto|].
+    destruct (guard_ok _ _) eqn:G.
+    + destruct fi as [[[|n] fk]|].
+      * destruct (IH None (step bufsz (Some fk) i s)) as [b' H]. exists b'.
+        apply (R_fault bufsz i l s fk b' _ D G H).
+      * destruct (IH (Some (n, fk)) (step bufsz None i s)) as [b' H]. exists b'. apply R_ok; auto.
+      * destruct (IH None (step bufsz None i s)) as [b' H]. exists b'. apply R_ok; auto.
+    + destruct (IH fi s) as [b' H]. exists b'. apply R_skip; auto.
+Qed.
+
+Lemma R_dead_any bufsz b l s : m_dead s = true -> R bufsz b l s b s.
+Proof. intros H; destruct l; [constructor | apply R_dead; auto]. Qed.
+
+Ltac with_R k := match goal with Hr : R _ _ _ _ _ _ |- _ => k Hr end.
+
+Lemma R_app bufsz l1 : forall l2 b s b' s',
+  R bufsz b (l1 ++ l2) s b' s' -> exists b1 s1, R bufsz b l1 s b1 s1 /\ R bufsz b1 l2 s1 b' s'.
+Proof.
+  induction l1 as [|i l1 IH]; intros l2 b s b' s' H; simpl in H.
+  - exists b, s; split; [constructor | auto].
+  - inversion H; subst; clear H.
+    + exists b', s'; split; [apply R_dead; auto | apply R_dead_any; auto].
+    + with_R ltac:(fun Hr => destruct (IH _ _ _ _ _ Hr) as (b1 & s1 & A & B)).
+      exists b1, s1; split; auto. apply R_skip; auto.
+    + with_R ltac:(fun Hr => destruct (IH _ _ _ _ _ Hr) as (b1 & s1 & A & B)).
+      exists b1, s1; split; auto. apply R_ok; auto.
+    + with_R ltac:(fun Hr => destruct (IH _ _ _ _ _ Hr) as (b1 & s1 & A & B)).
+      exists b1, s1; split; auto. eapply R_fault; eauto.
+Qed.
+
+(* what one step does to a file it does not name, to flags of other threads, to dead/diag *)
+Lemma exec_fault_frame bufsz fk o s q : touch o <> Some q ->
+  files (exec_fault bufsz fk o s) q = files s q /\ pend (exec_fault bufsz fk o s) q = pend s q.
+Proof.
+  intros H. destruct fk, o; simpl in *; auto;
+    try (assert (q <> p) by congruence);
+    try (destruct (pend s p); simpl; rewrite ?upd_neq; auto; fail);
+    try (apply buffered_frame; auto; fail).
+Qed.
+
+Lemma step_frame bufsz fo i s q : touch (i_op i) <> Some q ->
+  files (m_fs (step bufsz fo i s)) q = files (m_fs s) q /\ pend (m_fs (step bufsz fo i s)) q = pend (m_fs s) q.
+Proof.
+  intros H; unfold step; destruct fo as [fk|]; [destruct (is_failure fk (i_op i))|]; simpl;
+    first [apply exec_fault_frame; auto | apply exec_ok_frame; auto].
+Qed.
+
+Lemma R_frame bufsz l q : Forall (fun i => nt q (i_op i)) l -> forall b s b' s',
+  R bufsz b l s b' s' ->
+  files (m_fs s') q = files (m_fs s) q /\ pend (m_fs s') q = pend (m_fs s) q.
+Proof.
+  induction l as [|i l IH]; intros HF b s b' s' H; inversion H; subst; clear H; auto;
+    inversion HF; subst.
+  - with_R ltac:(fun Hr => eapply IH; eauto).
+  - with_R ltac:(fun Hr => destruct (IH ltac:(assumption) _ _ _ _ Hr) as [-> ->]). apply step_frame; auto.
+  - with_R ltac:(fun Hr => destruct (IH ltac:(assumption) _ _ _ _ Hr) as [-> ->]). apply step_frame; auto.
+Qed.
+
+Lemma setfl_other fl t l v t' f : t' <> t -> setfl fl t l v t' f = fl t' f.
+Proof.
+  intros H; unfold setfl; destruct l; auto. apply Z.eqb_neq in H; rewrite H; reflexivity.
+Qed.
+
+Lemma step_flags_other bufsz fo i s t f : i_tid i <> t -> m_fl (step bufsz fo i s) t f = m_fl s t f.
+Proof.
+  intros H; unfold step; destruct fo as [fk|]; [destruct (is_failure fk (i_op i))|]; simpl;
+    rewrite ?setfl_other; auto.
+Qed.
+
+Lemma R_flags_other bufsz l t : Forall (fun i => i_tid i <> t) l -> forall b s b' s' f,
+  R bufsz b l s b' s' -> m_fl s' t f = m_fl s t f.
+Proof.
+  induction l as [|i l IH]; intros HF b s b' s' f H; inversion H; subst; clear H; auto; inversion HF; subst.
+  - with_R ltac:(fun Hr => eapply IH; eauto).
+  - with_R ltac:(fun Hr => rewrite (IH ltac:(assumption) _ _ _ _ f Hr)). apply step_flags_other; auto.
+  - with_R ltac:(fun Hr => rewrite (IH ltac:(assumption) _ _ _ _ f Hr)). apply step_flags_other; auto.
+Qed.
+
+(* a dead run has printed a diagnostic *)
+Lemma R_dead_diag bufsz l : Forall (fun i => i_die i = true -> i_diag i = true) l -> forall b s b' s',
+  R bufsz b l s b' s' -> (m_dead s = true -> m_diag s = true) -> m_dead s' = true -> m_diag s' = true.
+Proof.
+  induction l as [|i l IH]; intros HF b s b' s' H Hs; inversion H; subst; clear H; auto; inversion HF; subst.
+  - with_R ltac:(fun Hr => eapply IH; eauto).
+  - with_R ltac:(fun Hr => apply (IH ltac:(assumption) _ _ _ _ Hr)). simpl. congruence.
+  - with_R ltac:(fun Hr => apply (IH ltac:(assumption) _ _ _ _ Hr)). unfold step. destruct (is_failure fk (i_op i)); simpl; [|congruence].
+    intros D. match goal with Hd : i_die i = true -> _ |- _ => rewrite (Hd D) end. apply orb_true_r.
+Qed.
+
+(* the log only grows, by calls of the list *)
+Lemma R_log bufsz l : forall b s b' s' o, R bufsz b l s b' s' ->
+  In o (m_log s') -> In o (m_log s) \/ In o (map i_op l).
+Proof.
+  induction l as [|i l IH]; intros b s b' s' o H Ho; inversion H; subst; clear H; auto.
+  - with_R ltac:(fun Hr => destruct (IH _ _ _ _ o Hr Ho)); auto. right; right; auto.
+  - with_R ltac:(fun Hr => destruct (IH _ _ _ _ o Hr Ho) as [H1|H1]); [|right; right; auto].
+    simpl in H1. destruct H1 as [<-|H1]; auto. right; left; auto.
+  - with_R ltac:(fun Hr => destruct (IH _ _ _ _ o Hr Ho) as [H1|H1]); [|right; right; auto].
+    unfold step in H1. destruct (is_failure fk (i_op i)); simpl in H1; destruct H1 as [<-|H1]; auto; right; left; auto.
+Qed.
+
+Lemma R_from_dead bufsz l b s b' s' : m_dead s = true -> R bufsz b l s b' s' -> s' = s /\ b' = b.
+Proof. intros D H; inversion H; subst; auto; congruence. Qed.
+
+Lemma is_failure_nowrite fk o : is_write o = false -> is_failure fk o = true.
+Proof. destruct fk, o; simpl; auto; discriminate. Qed.
+
+(* --- calls whose failure is fatal (or, for close(), ignored without effect) --- *)
+
+Definition dieish (i : instr) : Prop :=
+  i_guard i = [] /\ i_set i = [] /\ i_unset i = [] /\ i_clear i = [] /\
+  ((i_die i = true /\ i_diag i = true)
+   \/ ((exists p, i_op i = Close p) /\ i_die i = false /\ i_diag i = false)).
+
+Lemma R_dielist bufsz l : Forall dieish l -> forall b s b' s',
+  R bufsz b l s b' s' -> m_dead s = false ->
+  (m_dead s' = true /\ m_diag s' = true)
+  \/ (m_dead s' = false /\ m_fs s' = apply_ops bufsz (map i_op l) (m_fs s)
+      /\ m_fl s' = m_fl s /\ m_diag s' = m_diag s).
+Proof.
+  induction l as [|i l IH]; intros HF b s b' s' H D; inversion H; subst; clear H.
+  - right; auto.
+  - congruence.
+  - inversion HF; subst. destruct H1 as (G & _). rewrite G in *. discriminate.
+  - inversion HF as [|? ? Hd HF']; subst. destruct Hd as (_ & S1 & S2 & _).
+    with_R ltac:(fun Hr => destruct (IH HF' _ _ _ _ Hr) as [?|(A & B & C & E)]); auto.
+    right. repeat split; auto.
+    + rewrite C. unfold step; simpl. rewrite S1, S2. reflexivity.
+  - inversion HF as [|? ? Hd HF']; subst. destruct Hd as (_ & S1 & S2 & S3 & Hk).
+    destruct (is_failure fk (i_op i)) eqn:F.
+    + destruct Hk as [[K1 K2]|[[p Hp] [K1 K2]]].
+      * (* die *)
+        with_R ltac:(fun Hr => apply R_from_dead in Hr as [-> ->]).
+        { left. unfold step; rewrite F; simpl. rewrite K1, K2, orb_true_r. auto. }
+        unfold step; rewrite F; simpl; auto.
+      * (* close(): ignored *)
+        with_R ltac:(fun Hr => destruct (IH HF' _ _ _ _ Hr) as [?|(A & B & C & E)]); auto.
+        { unfold step; rewrite F; simpl; auto. }
+        right. unfold step in *; rewrite F in *; simpl in *. rewrite S3 in C. rewrite K2, orb_false_r in E.
+        repeat split; auto. rewrite B, Hp. destruct fk; reflexivity.
+    + (* short write: the loop completes it *)
+      with_R ltac:(fun Hr => destruct (IH HF' _ _ _ _ Hr) as [?|(A & B & C & E)]); auto.
+      { unfold step; rewrite F; simpl; auto. }
+      right. unfold step in *; rewrite F in *; simpl in *. rewrite S1, S2 in C.
+      repeat split; auto. rewrite B.
+      destruct fk; [simpl in F; discriminate|]. destruct (i_op i); simpl in F; try discriminate. reflexivity.
+Qed.
+
+(* --- the part of a thread before any relocation: init, flushes, final metadata store, close --- *)
+
+Definition SA (m : mode) (th : thread) : list instr :=
+  thread_init_tr m th ++ flush_tr m th
+  ++ store_meta_tr m (th_tid th) (meta_text true (th_meta1 th))
+  ++ [iign (th_tid th) (Close (PFile (procloc m) (th_tid th) Obs))].
+
+Lemma SA_dieish m th : Forall dieish (SA m th).
+Proof.
+  assert (D : forall t o, dieish (idie t o)) by (intros; unfold dieish, idie; simpl; repeat split; auto).
+  unfold SA, thread_init_tr, mkpath_thread, store_meta_tr, flush_tr. fa; auto.
+  - destruct m; fa; auto.
+  - apply Forall_map, Forall_forall; intros; auto.
+  - unfold dieish, iign; simpl; repeat split; auto. right; repeat split; eauto.
+Qed.
+
+Definition touchp (o : op) : option path :=
+  match o with FopenW p | Fputs p _ | Fwrite p _ | Fclose p => Some p | _ => None end.
+
+Lemma exec_ok_pend bufsz o s q : touchp o <> Some q -> pend (exec_ok bufsz o s) q = pend s q.
+Proof.
+  intros H; destruct o; simpl in *; auto; try (assert (q <> p) by congruence).
+  - destruct (files s p); auto.
+  - simpl; rewrite upd_neq; auto.
+  - apply buffered_frame; auto.
+  - apply buffered_frame; auto.
+  - destruct (pend s p); simpl; rewrite ?upd_neq; auto.
+  - destruct (forallb _ _); auto.
+Qed.
+
+Lemma apply_ops_pend bufsz l : forall s q, Forall (fun o => touchp o <> Some q) l ->
+  pend (apply_ops bufsz l s) q = pend s q.
+Proof.
+  induction l as [|o l IH]; intros s q H; auto. inversion H; subst.
+  rewrite apply_ops_cons, IH by auto. apply exec_ok_pend; auto.
+Qed.
+
+Lemma SA_ops m th : map i_op (SA m th) =
+  map i_op (thread_init_tr m th ++ flush_tr m th)
+  ++ map i_op (store_meta_tr m (th_tid th) (meta_text true (th_meta1 th)))
+  ++ [Close (PFile (procloc m) (th_tid th) Obs)].
+Proof. unfold SA. rewrite !map_app. rewrite <- !app_assoc. reflexivity. Qed.
+
+Lemma SA_result bufsz m th s :
+  files s (PFile (procloc m) (th_tid th) Obs) = None -> pend s (PFile (procloc m) (th_tid th) Obs) = None ->
+  let s' := apply_ops bufsz (map i_op (SA m th)) s in
+  files s' (PFile (procloc m) (th_tid th) Obs) = Some (all_bytes th)
+  /\ files s' (PFile (procloc m) (th_tid th) Json) = Some (meta_text true (th_meta1 th))
+  /\ pend s' (PFile (procloc m) (th_tid th) Obs) = None
+  /\ pend s' (PFile (procloc m) (th_tid th) Json) = None.
+Proof.
+  intros Ho Hp. cbv zeta. rewrite SA_ops, !apply_ops_app.
+  set (s1 := apply_ops bufsz (map i_op (thread_init_tr m th ++ flush_tr m th)) s).
+  set (s2 := apply_ops bufsz (map i_op (store_meta_tr m (th_tid th) (meta_text true (th_meta1 th)))) s1).
+  assert (H1 : files s1 (PFile (procloc m) (th_tid th) Obs) = Some (all_bytes th)) by (apply init_flush_obs; auto).
+  destruct (store_result bufsz m (th_tid th) (meta_text true (th_meta1 th)) s1) as [J1 J2]. fold s2 in J1, J2.
+  assert (NO : Forall (nt (PFile (procloc m) (th_tid th) Obs))
+                 (map i_op (store_meta_tr m (th_tid th) (meta_text true (th_meta1 th))))).
+  { unfold store_meta_tr; simpl; fa; unfold nt; simpl; intros E; injection E; discriminate. }
+  repeat split.
+  - simpl. destruct (apply_ops_frame bufsz _ s1 _ NO) as [E _]. fold s2 in E. rewrite E; auto.
+  - simpl; auto.
+  - simpl. rewrite <- Hp. unfold s2, s1. rewrite <- apply_ops_app, <- map_app.
+    apply apply_ops_pend.
+    unfold thread_init_tr, mkpath_thread, store_meta_tr, flush_tr. rewrite !map_app, map_map.
+    assert (L : forall o, (touchp o = None \/ exists t' l', touchp o = Some (PFile l' t' Json)) ->
+                          touchp o <> Some (PFile (procloc m) (th_tid th) Obs)).
+    { intros o [E|(t' & l' & E)]; rewrite E; discriminate. }
+    fa; try (destruct m; simpl; fa); try (apply Forall_map, Forall_forall; intros);
+      apply L; simpl; eauto.
+  - simpl; auto.
+Qed.
+
+(* --- what a thread's part of the run must establish --- *)
+
+Definition fin_ok (fs : fsys) (th : thread) : Prop :=
+  files fs (PFile Fin (th_tid th) Obs) = Some (all_bytes th)
+  /\ files fs (PFile Fin (th_tid th) Json) = Some (meta_text true (th_meta1 th)).
+Definition tmp_ok (fs : fsys) (th : thread) : Prop :=
+  files fs (PFile Tmp (th_tid th) Obs) = Some (all_bytes th)
+  /\ files fs (PFile Tmp (th_tid th) Json) = Some (meta_text true (th_meta1 th)).
+
+Definition clean (s : mstate) (t : Z) : Prop :=
+  (forall l f, files (m_fs s) (PFile l t f) = None /\ pend (m_fs s) (PFile l t f) = None)
+  /\ (forall f, m_fl s t f = false).
+
+Definition thread_post (th : thread) (s s1 : mstate) : Prop :=
+  (forall f, In (Remove (PFile Tmp (th_tid th) f)) (m_log s1) ->
+             In (Remove (PFile Tmp (th_tid th) f)) (m_log s) \/ fin_ok (m_fs s1) th)
+  /\ (m_dead s1 = false -> fin_ok (m_fs s1) th \/ tmp_ok (m_fs s1) th).
+
+Lemma SA_noremove m th p : ~ In (Remove p) (map i_op (SA m th)).
+Proof.
+  unfold SA, thread_init_tr, mkpath_thread, store_meta_tr, flush_tr. rewrite !map_app, map_map.
+  intros H. repeat (apply in_app_or in H as [H|H]);
+    try (destruct m; simpl in H; intuition discriminate).
+  apply in_map_iff in H as (c & E & _). discriminate.
+Qed.
+
+Lemma direct_thread_is_SA rho th : thread_tr New Direct rho th = SA Direct th.
+Proof. unfold thread_tr, thread_free_tr, SA. simpl. rewrite <- ?app_assoc. reflexivity. Qed.
+
+Lemma direct_thread_post bufsz rho th b s b1 s1 :
+  R bufsz b (thread_tr New Direct rho th) s b1 s1 -> m_dead s = false -> clean s (th_tid th) ->
+  thread_post th s s1.
+Proof.
+  rewrite direct_thread_is_SA. intros HR D [Hc _].
+  assert (HL : forall f, In (Remove (PFile Tmp (th_tid th) f)) (m_log s1) ->
+                         In (Remove (PFile Tmp (th_tid th) f)) (m_log s)).
+  { intros f Hin. destruct (R_log _ _ _ _ _ _ _ HR Hin) as [H|H]; auto. exfalso; eapply SA_noremove; eauto. }
+  destruct (R_dielist bufsz _ (SA_dieish Direct th) _ _ _ _ HR D) as [[D1 _]|(D1 & Hfs & _)].
+  - split; [intros f Hin; left; auto | congruence].
+  - split; [intros f Hin; left; auto|]. intros _. left.
+    destruct (SA_result bufsz Direct th (m_fs s)) as (A & B & _); try apply Hc.
+    rewrite Hfs. split; [exact A | exact B].
+Qed.
+
+(* --- from threads to programs --- *)
+
+Lemma thread_tids v m rho th : Forall (fun i => i_tid i = th_tid th) (thread_tr v m rho th).
+Proof.
+  unfold thread_tr, thread_free_tr; unfold thread_init_tr, mkpath_thread, store_meta_tr, flush_tr.
+  fa; try reflexivity; try (destruct m; fa; reflexivity);
+    try (apply Forall_map, Forall_forall; intros; reflexivity).
+  destruct m; [constructor|]. fa; [|reflexivity].
+  destruct v; unfold relocate, relocate_new, relocate_old, pass_new, copy_new, copy_old; fa; try reflexivity;
+    try (apply Forall_flat_map, Forall_forall; intros e _; fa; try reflexivity;
+         destruct e as [| |[]]; cbn; fa; try reflexivity;
+         apply Forall_flat_map, Forall_forall; intros; fa; reflexivity).
+Qed.
+
+Lemma list_eqb_refl l : list_eqb l l = true.
+Proof.
+  unfold list_eqb. rewrite Nat.eqb_refl. simpl.
+  induction l; simpl; auto. rewrite Z.eqb_refl; auto.
+Qed.
+
+Lemma fin_ok_complete fs th : fin_ok fs th -> stream_complete fs Fin th = true.
+Proof.
+  intros [A B]; unfold stream_complete, content. rewrite A, B, json_finished_meta, list_eqb_refl. reflexivity.
+Qed.
+Lemma tmp_ok_complete fs th : tmp_ok fs th -> stream_complete fs Tmp th = true.
+Proof.
+  intros [A B]; unfold stream_complete, content. rewrite A, B, json_finished_meta, list_eqb_refl. reflexivity.
+Qed.
+
+Section lift.
+Variables (bufsz : nat) (m : mode) (rho : order).
+Hypothesis thread_lemma : forall th b s b1 s1,
+  R bufsz b (thread_tr New m rho th) s b1 s1 -> m_dead s = false -> clean s (th_tid th) -> thread_post th s s1.
+
+Lemma other_instrs t l : Forall (other t) (map i_op l) -> forall lo f, Forall (fun i => nt (PFile lo t f) (i_op i)) l.
+Proof. intros H lo f. rewrite Forall_map in H. eapply Forall_impl; [|exact H]. intros a Ha; apply Ha. Qed.
+
+Lemma ok_frame l t th b s b' s' : th_tid th = t -> Forall (other t) (map i_op l) -> R bufsz b l s b' s' ->
+  (fin_ok (m_fs s) th -> fin_ok (m_fs s') th) /\ (tmp_ok (m_fs s) th -> tmp_ok (m_fs s') th).
+Proof.
+  intros <- HO HR. unfold fin_ok, tmp_ok.
+  destruct (R_frame bufsz l _ (other_instrs _ l HO Fin Obs) _ _ _ _ HR) as [-> _].
+  destruct (R_frame bufsz l _ (other_instrs _ l HO Fin Json) _ _ _ _ HR) as [-> _].
+  destruct (R_frame bufsz l _ (other_instrs _ l HO Tmp Obs) _ _ _ _ HR) as [-> _].
+  destruct (R_frame bufsz l _ (other_instrs _ l HO Tmp Json) _ _ _ _ HR) as [-> _]. tauto.
+Qed.
+
+Lemma clean_frame l t b s b' s' : Forall (other t) (map i_op l) -> Forall (fun i => i_tid i <> t) l ->
+  R bufsz b l s b' s' -> clean s t -> clean s' t.
+Proof.
+  intros HO HT HR [C1 C2]. split.
+  - intros lo f. destruct (R_frame bufsz l _ (other_instrs _ l HO lo f) _ _ _ _ HR) as [-> ->]. apply C1.
+  - intros f. rewrite (R_flags_other bufsz l t HT _ _ _ _ f HR). apply C2.
+Qed.
+
+Lemma remove_not_other t f l : Forall (other t) l -> ~ In (Remove (PFile Tmp t f)) l.
+Proof.
+  intros H Hin. rewrite Forall_forall in H. apply (H _ Hin Tmp f). reflexivity.
+Qed.
+
+Lemma post_extend th l s s1 b1 b' s' :
+  Forall (other (th_tid th)) (map i_op l) -> thread_post th s s1 -> R bufsz b1 l s1 b' s' -> thread_post th s s'.
+Proof.
+  intros HO [PA PB] HR.
+  destruct (ok_frame l _ th _ _ _ _ eq_refl HO HR) as [F1 F2].
+  split.
+  - intros f Hin. destruct (R_log _ _ _ _ _ _ _ HR Hin) as [H|H].
+    + destruct (PA f H); auto.
+    + exfalso; eapply remove_not_other; eauto.
+  - intros D. destruct (m_dead s1) eqn:D1.
+    + apply R_from_dead in HR as [-> _]; auto. congruence.
+    + destruct (PB eq_refl); auto.
+Qed.
+
+Lemma threads_R P : NoDup (tids P) -> forall b s b' s',
+  R bufsz b (flat_map (thread_tr New m rho) P) s b' s' ->
+  (forall th, In th P -> clean s (th_tid th)) ->
+  forall th, In th P -> thread_post th s s'.
+Proof.
+  induction P as [|th0 P IH]; intros ND b s b' s' HR HC th Hin; [destruct Hin|].
+  simpl in HR. apply R_app in HR as (b1 & s1 & HR1 & HR2).
+  inversion ND as [|? ? Hnot ND']; subst.
+  assert (Hne : forall th', In th' P -> th_tid th' <> th_tid th0).
+  { intros th' H E. apply Hnot. unfold tids. rewrite <- E. apply in_map; auto. }
+  destruct (m_dead s) eqn:D.
+  { apply R_from_dead in HR1 as [-> ->]; auto. apply R_from_dead in HR2 as [-> ->]; auto.
+    split; [auto | congruence]. }
+  destruct Hin as [<-|Hin].
+  - pose proof (thread_lemma th0 _ _ _ _ HR1 D (HC th0 (or_introl eq_refl))) as P0.
+    eapply post_extend; eauto. apply threads_other. intros th' H; apply Hne; auto.
+  - assert (HC1 : forall th', In th' P -> clean s1 (th_tid th')).
+    { intros th' H. eapply clean_frame; [| |exact HR1|apply HC; right; auto].
+      - apply thread_other. intros E; apply (Hne th' H); auto.
+      - eapply Forall_impl; [|apply thread_tids]. simpl. intros a -> E. apply (Hne th' H); auto. }
+    destruct (IH ND' _ _ _ _ HR2 HC1 th Hin) as [PA PB]. split; auto.
+    intros f H. destruct (PA f H) as [H1|H1]; auto.
+    destruct (R_log _ _ _ _ _ _ _ HR1 H1) as [H2|H2]; auto.
+    exfalso. eapply remove_not_other; [|exact H2]. apply thread_other. intros E; apply (Hne th Hin); auto.
+Qed.
+
+Theorem C10_from_threads P : wf_program P -> C10_statement bufsz m P rho.
+Proof.
+  intros [ND NZ] i fk. cbv zeta. unfold apply_with_fault, itrace.
+  destruct (run_R bufsz (proc_init_tr m ++ flat_map (thread_tr New m rho) P ++ proc_fini_tr m P) (Some (i, fk)) m0)
+    as [b' HR].
+  set (s' := run bufsz (Some (i, fk)) _ m0) in *. clearbody s'.
+  apply R_app in HR as (b1 & s1 & HR1 & HR). apply R_app in HR as (b2 & s2 & HR2 & HR3).
+  (* diagnostics *)
+  assert (DD : m_dead s' = true -> m_diag s' = true).
+  { intros D.
+    assert (HRall : exists b0, R bufsz true (proc_init_tr m ++ flat_map (thread_tr New m rho) P ++ proc_fini_tr m P) m0 b0 s')
+      by (destruct (run_R bufsz (proc_init_tr m ++ flat_map (thread_tr New m rho) P ++ proc_fini_tr m P) (Some (i, fk)) m0) as [b0 H0]; eauto).
+    clear HRall. (* re-establish from the pieces *)
+    assert (D1 : m_dead s1 = true -> m_diag s1 = true).
+    { eapply (R_dead_diag bufsz (proc_init_tr m)); [|exact HR1|discriminate].
+      destruct m; simpl; fa; auto. }
+    assert (D2 : m_dead s2 = true -> m_diag s2 = true).
+    { eapply (R_dead_diag bufsz (flat_map (thread_tr New m rho) P)); [|exact HR2|exact D1].
+      apply Forall_flat_map, Forall_forall; intros th _.
+      unfold thread_tr, thread_free_tr; unfold thread_init_tr, mkpath_thread, store_meta_tr, flush_tr.
+      fa; auto; try (destruct m; fa; auto); try (apply Forall_map, Forall_forall; intros; auto).
+      unfold relocate, relocate_new, pass_new, copy_new. fa; try (simpl; discriminate); auto;
+        apply Forall_flat_map, Forall_forall; intros e _; fa; try (simpl; discriminate);
+        destruct e as [| |[]]; cbn; fa; try (simpl; discriminate);
+        apply Forall_flat_map, Forall_forall; intros; fa; simpl; discriminate. }
+    eapply (R_dead_diag bufsz (proc_fini_tr m P)); [|exact HR3|exact D2|exact D].
+    destruct m; simpl; fa; simpl; discriminate. }
+  (* every thread *)
+  assert (C1 : forall th, In th P -> clean s1 (th_tid th)).
+  { intros th Hin. eapply (clean_frame (proc_init_tr m)); [apply init_other| |exact HR1|].
+    - destruct m; simpl; fa; simpl; intros E; apply (NZ th Hin); auto.
+    - split; [intros; split; reflexivity | reflexivity]. }
+  assert (PT : forall th, In th P -> thread_post th s1 s').
+  { intros th Hin. eapply post_extend; [apply fini_other| |exact HR3].
+    eapply threads_R; eauto. }
+  assert (NR : forall th f, In th P -> ~ In (Remove (PFile Tmp (th_tid th) f)) (m_log s1)).
+  { intros th f Hin H. destruct (R_log _ _ _ _ _ _ _ HR1 H) as [H1|H1]; [destruct H1|].
+    eapply remove_not_other; [apply init_other|exact H1]. }
+  split.
+  - unfold outcome_of. destruct (m_dead s') eqn:D.
+    + rewrite DD; auto.
+    + right. replace (complete_valid (m_fs s') P) with true; auto.
+      symmetry. unfold complete_valid. apply forallb_forall. intros th Hin.
+      destruct (PT th Hin) as [_ PB]. destruct (PB D) as [H|H].
+      * rewrite fin_ok_complete; auto.
+      * rewrite tmp_ok_complete, orb_true_r; auto.
+  - unfold orphan_delete.
+    destruct (existsb _ P) eqn:E; auto. exfalso.
+    apply existsb_exists in E as (th & Hin & E). apply existsb_exists in E as (f & _ & E).
+    apply andb_true_iff in E as [E1 E2]. apply existsb_exists in E1 as (o & Ho & E1).
+    destruct o; try discriminate. destruct p; try discriminate. destruct l; try discriminate.
+    apply andb_true_iff in E1 as [Et Ef]. apply Z.eqb_eq in Et. apply fname_eqb_eq in Ef. subst.
+    destruct (PT th Hin) as [PA _]. destruct (PA f0 Ho) as [H|[HA HB]]; [eapply NR; eauto|].
+    destruct f0; simpl in E2; [rewrite HA in E2 | rewrite HB in E2]; rewrite list_eqb_refl in E2; discriminate.
+Qed.
+
+End lift.
